@@ -19,6 +19,7 @@ Ops == [op : {"SetName"}, p : Parents, n : Names, v : Vals]
        \cup [op : {"Pop"}, p : Parents, i : 1..MaxKids]
        \cup [op : {"DelIdx"}, p : Parents, n : Names, i : 0..MaxKids]
        \cup [op : {"CopyFrom"}, p : Parents, n : Names, q : Parents]
+       \cup [op : {"Adopt"}, p : Parents, q : Parents]
        \cup [op : {"NewFree"}, n : Names \cup {S!Foreign}, v : Vals, l : {0, 1}]
        \cup [op : {"Forget"}, c : Obj]
 Small(s) == (\A p \in Parents : Len(s.kids[p]) <= MaxKids) /\ Cardinality(s.held) <= MaxHeld
